@@ -90,8 +90,11 @@ def judge_h1(scn, out):
     if cv >= H2:
         orig = (scn["scheme"] + "://" if "scheme" in scn else "") + scn.get("authority", "") + (scn.get("pq", "") or ("/" if "scheme" in scn else ""))
         return out.get("uri") != orig
+    orig = (scn["scheme"] + "://" if "scheme" in scn else "") + scn.get("authority", "") + (scn.get("pq", "") or ("/" if "scheme" in scn else ""))
     if scn["method"] == "CONNECT":
-        return out.get("uri") != scn["authority"]
+        return out.get("uri") != (scn["authority"] if "authority" in scn else orig)
+    if "scheme" not in scn:
+        return out.get("uri") != orig
     return out.get("uri") != (scn.get("pq") or "/")
 
 
@@ -205,7 +208,7 @@ def obligations(prog, src, tier, seed):
         txt = uri_text(ctx, now)
         # origin-form: path-and-query only, "/" when empty; authority-form for CONNECT
         origin = z3.If(z3.Length(u.pq) == 0, z3.StringVal("/"), u.pq)
-        expect = z3.If(h1, z3.If(is_connect, u.auth.as_str_model(ctx), origin), uri_text(ctx, u))
+        expect = z3.If(h1, z3.If(z3.And(is_connect, u.has_auth), u.auth.as_str_model(ctx), z3.If(z3.And(u.has_scheme, z3.Not(is_connect)), origin, uri_text(ctx, u))), uri_text(ctx, u))
         props.append(("request target has the form required by the connection's protocol", txt == expect))
         props.append(("headers untouched", ctx.req.headers.v.cell("host").v is None or ctx.preset["host"]))
         return props
@@ -221,6 +224,12 @@ def obligations(prog, src, tier, seed):
                 "bound": "absolute URIs (scheme+authority) as sym_uri, method symbolic (CONNECT or not), connection version symbolic, path_and_query <= 4 chars",
                 "doc": "HTTP/1 connection: non-CONNECT => origin-form with path+query preserved, empty path => '/'; CONNECT => authority-form; HTTP/2 connection: URI unchanged",
                 "run": mk_h1(True), "check": check_h1, "cex_extract": scenario("http1"), "judge": judge_h1})
+
+    obs.append({"name": "c13_http1_request_target_any_form", "family": "http1_target",
+                "funcs": ["service::http::http1::check_http1_request", "http1::origin_form", "http1::authority_form", "http1::absolute_form"],
+                "bound": "every URI form http::Uri can hold (absolute, authority-form, origin-form, asterisk), method and connection version symbolic",
+                "doc": "as above, and a URI that is already relative (origin-form / asterisk-form) is left exactly as it is",
+                "run": mk_h1(False), "check": check_h1, "cex_extract": scenario("http1"), "judge": judge_h1})
 
     # ---- HTTP/2 sanitising -----------------------------------------------------------------------
     f_h2 = prog.find_one(r"^check_http2_request$")
